@@ -20,6 +20,12 @@ EXTENDS Naturals, FiniteSets, Sequences, TLC
 CONSTANTS Regs,        \* set of admitted registrations: [id, fam, phantom, registrant, client, proto, port]
           TU, TA, MaxT, ClearFirst,
           TickSteps,   \* durations by which time may pass in one step (besides the unit Tick)
+          LifeEvents,  \* BOOLEAN: Packets and Crash are part of the environment (off in the configuration that explores all message shapes)
+          KeepAlive,   \* seconds by which a forwarded packet of a session pushes the detector's expiry ahead (TIMEOUT_PHANTOMS_NS: 300)
+          ClearWhen,   \* "always": Cleanup publishes the Clear request whatever the station's own table holds (the detector's table is
+                       \*           not the station's: packets keep sessions alive past the station's sweep, an earlier run that died
+                       \*           left its sessions behind);  "if-tracking": only when the station still tracks something (a broken
+                       \*           instance: must violate ClearEmpties)
           DupMode      \* "ignore": a duplicate delivery of a tracked registration changes nothing (the station sends one message per
                        \*           registration, so its own clock must keep running from the first delivery);
                        \* "restart": it restarts the station's expiry clock and resets it to unused - without any message to the
@@ -98,11 +104,20 @@ TickBy(d) == /\ d \in TickSteps /\ now + d <= MaxT /\ now' = now + d
              /\ st' = [r \in Regs |-> IF st[r] # None /\ StationExpiry(st[r]) < now' THEN None ELSE st[r]]
              /\ det' = {s \in det : s.exp >= now'}
              /\ UNCHANGED <<sent, cleared>> /\ obs' = [a |-> "Tick", d |-> d]
+\* detector side: packets of the sessions it forwards keep them alive (SessionTracker.update_session, keep the longer)
+Packets == /\ LifeEvents
+           /\ det' = {[s EXCEPT !.exp = IF @ < now + KeepAlive THEN now + KeepAlive ELSE @] : s \in det}
+           /\ UNCHANGED <<now, st, sent, cleared>> /\ obs' = [a |-> "Packets"]
+\* the station process dies without running Cleanup and is started again: its table is empty, the detector's is what it was
+Crash == /\ LifeEvents /\ ~cleared /\ st' = [r \in Regs |-> None]
+         /\ UNCHANGED <<now, det, sent, cleared>> /\ obs' = [a |-> "Crash"]
 Shutdown == /\ ~cleared /\ cleared' = TRUE
-            /\ sent' = ClearMsg /\ det' = Handle(det, sent')
+            /\ IF ClearWhen = "always" \/ \E r \in Regs : st[r] # None
+                 THEN /\ sent' = ClearMsg /\ det' = Handle(det, sent')
+                      /\ obs' = [a |-> "Publish", id |-> "clear", msg |-> sent']
+                 ELSE /\ UNCHANGED <<sent, det>> /\ obs' = [a |-> "NoClear"]
             /\ st' = [r \in Regs |-> None] /\ UNCHANGED now
-            /\ obs' = [a |-> "Publish", id |-> "clear", msg |-> sent']
-Next == (\E r \in Regs : Validate(r) \/ Activate(r) \/ Duplicate(r)) \/ Tick \/ (\E d \in TickSteps : TickBy(d)) \/ Shutdown
+Next == (\E r \in Regs : Validate(r) \/ Activate(r) \/ Duplicate(r)) \/ Tick \/ (\E d \in TickSteps : TickBy(d)) \/ Packets \/ Crash \/ Shutdown
 Spec == Init /\ [][Next]_vars
 
 \* ------------------------------ properties ------------------------------
